@@ -49,6 +49,8 @@ pub struct Counters {
   pub tap: Vec<usize>,
   /// items pulled from counting iterators (`iterc`)
   pub pulls: usize,
+  /// calls of the closures given to of_fn / start / defer
+  pub calls: usize,
 }
 
 /// Per-case environment of the local flavour.
@@ -85,6 +87,10 @@ impl LCtx {
       g.tap.len() - 1
     };
     move |_| c.borrow_mut().tap[k] += 1
+  }
+  fn call_counter(&self) -> impl Fn() + Clone + 'static {
+    let c = self.counters.clone();
+    move || c.borrow_mut().calls += 1
   }
   fn pull_counter(&self) -> impl Fn(i64) -> Val + Clone + 'static {
     let c = self.counters.clone();
@@ -126,6 +132,10 @@ impl TCtx {
     };
     move |_| c.lock().unwrap().tap[k] += 1
   }
+  fn call_counter(&self) -> impl Fn() + Clone + Send + 'static {
+    let c = self.counters.clone();
+    move || c.lock().unwrap().calls += 1
+  }
   fn pull_counter(&self) -> impl Fn(i64) -> Val + Clone + Send + 'static {
     let c = self.counters.clone();
     move |k| {
@@ -166,12 +176,22 @@ macro_rules! impl_build {
         "ofok" => observable::of_result(Ok::<Val, i64>(Val::parse(&xs[1]))).box_it(),
         "oferr" => observable::of_result(Err::<Val, i64>(xs[1].int())).box_it(),
         "offn" => {
-          let v = Val::parse(&xs[1]);
-          observable::of_fn(move || v).on_error_map(widen).box_it()
+          let (v, cc) = (Val::parse(&xs[1]), ctx.call_counter());
+          observable::of_fn(move || {
+            cc();
+            v
+          })
+          .on_error_map(widen)
+          .box_it()
         }
         "start" => {
-          let v = Val::parse(&xs[1]);
-          observable::start(move || v).on_error_map(widen).box_it()
+          let (v, cc) = (Val::parse(&xs[1]), ctx.call_counter());
+          observable::start(move || {
+            cc();
+            v
+          })
+          .on_error_map(widen)
+          .box_it()
         }
         "iter" => {
           let vs: Vec<Val> = xs[1..].iter().map(Val::parse).collect();
@@ -192,7 +212,12 @@ macro_rules! impl_build {
         "defer" => {
           let inner = xs[1].clone();
           let c = ctx.clone();
-          observable::defer(move || $name(&inner, &c)).box_it()
+          let cc = ctx.call_counter();
+          observable::defer(move || {
+            cc();
+            $name(&inner, &c)
+          })
+          .box_it()
         }
         // ----------------------------------------------- single-input ops
         "map" => last().map(fn1(xs[1].atom())).box_it(),
